@@ -5,4 +5,5 @@ let table : (string * (Model.z list list -> Model.z list list)) list = [
   "array", Model.arr_run;
   "arrayspec", Model.arr_spec_run;
   "resource", Model.res_run;
+  "subject", Model.subj_run;
 ]
